@@ -457,6 +457,15 @@ pub fn run_config(cfg: &Config, base_id: u64, events: &[EventSpec]) -> ConfigRun
     drop(otlp);
     let log = c.requests();
     c.shutdown();
+    if std::env::var_os("VERIF_DEBUG").is_some() {
+        for r in &log {
+            eprintln!(
+                "req {} conn {} {:?} {} {:?} gzip={} {:?} {:?} wire={} payload={} records={:?} err={:?} notes={:?}",
+                r.seq, r.conn, r.transport, r.path, r.encoding, r.gzip, r.decision, r.outcome, r.wire_len, r.payload_len, r.records, r.decode_error, r.json_notes
+            );
+        }
+        eprintln!("flush_ok={flush_ok} discarded={discarded_total}");
+    }
 
     let mut found: BTreeMap<u64, BTreeMap<Signal, u32>> = BTreeMap::new();
     let mut stray = Vec::new();
@@ -588,6 +597,10 @@ pub fn judge(cfg: &Config, e: &EventSpec, obs: &Observation, cx: &mut Cx) -> Res
         Route::Logs => "route:logs",
         Route::Dropped => "route:dropped",
     });
+    if exp.allowed.len() > 1 {
+        // which way the implementation went on an open outcome (reported, never asserted)
+        cx.class(if route == exp.allowed[0] { "dont-care:took-kind-route" } else { "dont-care:took-fallback" });
+    }
     if !exp.allowed.contains(&route) {
         let sig = match (exp.allowed[0], route) {
             (_, Route::Dropped) => "event-lost-although-a-signal-can-take-it",
